@@ -475,6 +475,11 @@ def cstepCore (s : CSt) (kind : String) (args impl : List String) : Option (CSt 
         let sw' := KrakenModel.Swarm.step crc32 sw0 (.connect k 0)
         let ok := sw' != sw0
         let live' := if implRes == "active" then k :: s.live else s.live
+        if ok && implRes == "connrejected" then
+          -- the connection was established and at once closed again by the scheduler itself (the dispatcher
+          -- refused the peer); the harness has applied its connClosedEvent: connect followed by disconnect
+          some ({ s with sw := KrakenModel.Swarm.step crc32 sw' (.disconnect 0 k), live := s.live.filter (· != k) }, "connrejected", [])
+        else
         some ({ s with sw := sw', live := live' }, if ok then "active" else "rejected", [])
       | ["close", kT] => do
         let k ← peer? kT
